@@ -47,7 +47,7 @@ claimed = {
  "C19": dict(
    text=("Step contracts of the page migration controller: it stays busy until the control port has accepted the completion response (sendMigrationCompleteRspToCtrlPort, processWriteDoneRspFromMemCtrl: "
          "the busy flag is untouched while write acknowledgements are counted, the completion is built exactly on the last one), and every migrated chunk is written to the memory controller that owns that chunk's own address "
-         "(site obligations in processDataPullRsp). Request splitting arithmetic, the driver's one-page-at-a-time gate and the CP forwarding are not yet under contract."),
+         "(site obligations in processDataPullRsp); the driver hands a migration request to the GPU port only while no page is being migrated (sendMigrationReqToCP). Request splitting arithmetic and the CP forwarding are not yet under contract."),
    note=(TB + "akita ports, the simulation clock and the address-to-port mapper (assumed a pure function of the address) are external."),
    design="5 (C19)", technique="deductive verification: WP-style VC generation over go/ssa + SMT (pre/postconditions and call-site obligations on the step functions)"),
  "C13": dict(
@@ -57,7 +57,7 @@ claimed = {
          "this kernel's own .numbered_sgpr/.num_vgpr symbols (max of the rounded values, any symbol order), and findV5KernelDescriptor to return the parsed descriptor at the unique "
          "<kernel>.kd symbol's section-relative offset for any section address and symbol order. loadKernelCodeObjectFromELF (the debug/elf plumbing) is not yet under contract."),
    note=(TB + "Assumed (preconditions = well-formed file): section indices valid, a symbol lies inside its section, at most one 64-byte <kernel>.kd symbol, register-count symbols <= 4096; "
-         "strings are uninterpreted with cancellative concatenation; debug/elf itself is outside the verified code."),
+         "strings are uninterpreted with cancellative concatenation; debug/elf itself is outside the verified code (extern), and the well-formedness of the file is an assume-at at the point where the symbol table exists (listed in the evidence)."),
    design="5 (C13)", technique="deductive verification: WP-style VC generation over go/ssa + SMT (byte-layout contracts, loop invariants, intermediate assertion)"),
  "C08": dict(
    text=("Under contract for all geometries (mathematical integers with an overflow obligation on every + - *): gridBuilderImpl.NextWG without a filter returns work-group coordinates in x-fastest order, "
@@ -93,7 +93,7 @@ claimed = {
    design="5 (C10)", technique="deductive verification: WP-style VC generation over go/ssa + SMT (queue view of the free list, loop invariant with page-size case split)"),
  "C14": dict(
    text=("The two wait guards of the timing scheduler are under contract for every wavefront state: evalSWaitCnt completes exactly when both outstanding-access counters are at or below the counts the instruction asks for, "
-         "and evalSEndPgm never completes (and changes nothing) while a vector or scalar memory access of the wavefront is outstanding. Barrier release (evalSBarrier/EvaluateInternalInst), completion messages, "
+         "and evalSEndPgm never completes (and changes nothing) while a vector or scalar memory access of the wavefront is outstanding; ScalarUnit.executeSMEMLoad splits a scalar load into fragments that tile the range and marks every fragment but the last as coalescable (the response handler decrements the counter for the unmarked one). Barrier release (evalSBarrier/EvaluateInternalInst), completion messages, "
          "the counter decrements on memory responses and the emulation-mode barrier are not yet under contract."),
    note=(TB + "The helpers the guards call after their decision (work-group scans, completion message, register reset, tracing) are declared external (frame-only). "
          "Suspect not decided: a wavefront held in the internally-executing list because the barrier buffer is full is released by another wavefront's s_endpgm without being removed from that list (DESIGN.md 9.4)."),
